@@ -167,7 +167,7 @@ fn verif_describe(
         "uri": uri.as_str(),
         "found": true,
         "len": doc.text.len(),
-        "text": if doc.text.len() <= 256 { Some(doc.text.as_str()) } else { None },
+        "text": if doc.text.len() <= 65536 { Some(doc.text.as_str()) } else { None },
         "ntok": doc.tokens.len(),
         "ndiag": doc.errors().len(),
         "inc_eq_fresh": fresh.map(|fresh| {
